@@ -32,6 +32,10 @@ const sentinelName = event.Name("c20-sentinel")
 // inconclusive (never a violation by itself)
 const syncDeadline = 60 * time.Second
 
+// how long the answer to the synthetic event may lag behind the result for the sentinel write
+// before the latter alone ends the interval
+const sentinelGrace = 400 * time.Millisecond
+
 type stats struct {
 	labels map[string]bool
 	counts map[string]int
@@ -88,6 +92,9 @@ type gqlSub struct {
 	notify   chan struct{}
 	done     chan struct{}
 	disabled bool // a known finding made this subscription blind; it is still drained
+	// sentinel is the docID of this subscription's sentinel document ("" = its filter is
+	// unsatisfiable and it is synchronised by the synthetic event alone)
+	sentinel string
 	sawReal  bool
 }
 
@@ -111,9 +118,18 @@ type sim struct {
 	gctx    context.Context
 	gcancel context.CancelFunc
 
+	// sentinel documents (never targeted by the operations of the case)
+	sentinelDocs map[string]bool
+	sentinelSeq  int
+	// explicit transactions currently open: GraphQL subscriptions are synchronised (which needs
+	// a real write) only when there is none; gqlPending holds the events of the intervals skipped
+	openTxns   int
+	gqlPending []recEvent
+
 	sentSeq  uint64
 	synthSeq int
 	synth    map[string]bool // cids of synthetic events published so far
+	synthCol map[string]int  // and the collection each was published for
 
 	// commit blocks that are in the store but not reachable from any head
 	unattached []*commit
@@ -149,7 +165,7 @@ func run(c Case, st *stats) *hx.Failure {
 	if len(c.Subs) == 0 || len(c.Ops) == 0 {
 		hx.Harnessf("case without subscribers or operations")
 	}
-	s := &sim{c: c, st: st, docCol: map[string]int{}, created: map[string]DocVal{}, synth: map[string]bool{}}
+	s := &sim{c: c, st: st, docCol: map[string]int{}, created: map[string]DocVal{}, synth: map[string]bool{}, sentinelDocs: map[string]bool{}, synthCol: map[string]int{}}
 	defer s.close()
 	s.boot()
 	st.nsubs = len(c.Subs) + len(s.gql)
@@ -194,7 +210,7 @@ func (s *sim) boot() {
 		if c.Branch[i] {
 			dir = "@branchable"
 		}
-		sdl += fmt.Sprintf("type %s %s { age: Int  tag: String  u: Int @index(unique: true) }\n", name, dir)
+		sdl += fmt.Sprintf("type %s %s { age: Int  tag: String  u: Int @index(unique: true)  n: Int  mk: Boolean }\n", name, dir)
 	}
 	if _, err := s.n.DB.AddSchema(s.ctx, sdl); err != nil {
 		hx.Harnessf("schema rejected: %v", err)
@@ -213,6 +229,18 @@ func (s *sim) boot() {
 	if n := len(s.tr.scan(s.ctx)); n != 0 {
 		hx.Harnessf("%d commits in a fresh store", n)
 	}
+	// one sentinel document per GraphQL subscription, created before anybody listens
+	sentinels := make([]string, len(c.GQL))
+	if !c.Fault {
+		for k, g := range c.GQL {
+			sentinels[k] = s.createSentinel(k, g)
+		}
+		for _, cm := range s.tr.scan(s.ctx) {
+			if cm.Kind == "doc" {
+				s.docCol[cm.DocID] = cm.Col
+			}
+		}
+	}
 	s.subs = make([]*busSub, len(c.Subs))
 	s.joinLate(0)
 	if s.subs[0] == nil {
@@ -220,8 +248,9 @@ func (s *sim) boot() {
 	}
 	s.baselineStuck = stuckSubscriptionGoroutines()
 	s.gctx, s.gcancel = context.WithCancel(s.ctx)
-	for _, g := range c.GQL {
+	for k, g := range c.GQL {
 		s.openGQL(g)
+		s.gql[k].sentinel = sentinels[k]
 	}
 	s.avoidDelete = c.AvoidDeleteStall && rec.IsKnown(sigStallDelete) && len(s.gql) > 0
 	if len(s.gql) > 0 {
@@ -420,6 +449,70 @@ func (s *sim) close() {
 	}
 }
 
+// ---- sentinel documents ---------------------------------------------------------------------
+
+// createSentinel creates the sentinel document of subscription k: a document of the subscribed
+// collection that satisfies the subscription's filter (found by enumeration with the reference
+// evaluator), marked mk=true so that the filtered mutations of the case leave it alone. It
+// returns "" when no candidate satisfies the filter.
+func (s *sim) createSentinel(k int, g GQLSub) string {
+	ages := []int{50, 10}
+	for a := 0; a <= maxAge; a++ {
+		ages = append(ages, a)
+	}
+	us := []int{100 + k}
+	for u := 0; u <= maxU; u++ {
+		us = append(us, u)
+	}
+	for _, u := range us {
+		for _, a := range ages {
+			for _, tg := range []string{"z", "a", "b", "c"} {
+				if !evalFilter(g.Filter, docState{"age": int64(a), "tag": tg, "u": int64(u)}) {
+					continue
+				}
+				q := fmt.Sprintf("mutation { create_%s(input: {age: %d, tag: %q, u: %d, n: 0, mk: true}) { _docID } }", colNames[g.Col], a, tg, u)
+				r := s.n.Exec(q)
+				if !r.OK() {
+					continue // e.g. the unique value is taken by another sentinel
+				}
+				rows := r.Rows("create_" + colNames[g.Col])
+				if len(rows) != 1 {
+					hx.Harnessf("sentinel creation returned %v", r.Data)
+				}
+				id, _ := rows[0]["_docID"].(string)
+				s.sentinelDocs[id] = true
+				return id
+			}
+		}
+	}
+	s.st.label("gql-unsatisfiable-filter")
+	return ""
+}
+
+// sentinelWrites updates the sentinel document of every subscription (field n, which no filter
+// names). They are ordinary committed mutations: the bus oracle and the GraphQL oracle judge
+// them like every other change of the interval.
+func (s *sim) sentinelWrites() {
+	for _, g := range s.gql {
+		if g.sentinel == "" {
+			continue
+		}
+		s.sentinelSeq++
+		q := fmt.Sprintf("mutation { update_%s(docID: %q, input: {n: %d}) { _docID } }", colNames[g.spec.Col], g.sentinel, s.sentinelSeq)
+		if r := s.n.Exec(q); !r.OK() || len(r.Rows("update_"+colNames[g.spec.Col])) != 1 {
+			hx.Harnessf("sentinel write failed: %s %s %v", r.Err(), r.Panic, r.Data)
+		}
+	}
+}
+
+// guardFilter keeps the filtered mutations of the case away from the sentinel documents.
+func (s *sim) guardFilter(f *Filter) string {
+	if len(s.sentinelDocs) == 0 {
+		return f.gql()
+	}
+	return "{_and: [{mk: {_ne: true}}, " + f.gql() + "]}"
+}
+
 // ---- operations -----------------------------------------------------------------------------
 
 func gqlDoc(d DocVal) string {
@@ -512,7 +605,7 @@ func (s *sim) mutation(op Op) string {
 	case "update":
 		return fmt.Sprintf("update_%s(docID: %q, input: %s) { _docID }", name, s.target(op.Col, op.Target[0]), op.Set.gql())
 	case "updateFilter":
-		return fmt.Sprintf("update_%s(filter: %s, input: %s) { _docID }", name, op.Filter.gql(), op.Set.gql())
+		return fmt.Sprintf("update_%s(filter: %s, input: %s) { _docID }", name, s.guardFilter(op.Filter), op.Set.gql())
 	case "delete":
 		return fmt.Sprintf("delete_%s(docID: %q) { _docID }", name, s.target(op.Col, op.Target[0]))
 	case "deleteIDs":
@@ -522,9 +615,9 @@ func (s *sim) mutation(op Op) string {
 		}
 		return fmt.Sprintf("delete_%s(docID: [%s]) { _docID }", name, strings.Join(ids, ", "))
 	case "deleteFilter":
-		return fmt.Sprintf("delete_%s(filter: %s) { _docID }", name, op.Filter.gql())
+		return fmt.Sprintf("delete_%s(filter: %s) { _docID }", name, s.guardFilter(op.Filter))
 	case "upsert":
-		return fmt.Sprintf("upsert_%s(filter: %s, create: %s, update: %s) { _docID }", name, op.Filter.gql(), gqlDoc(op.Docs[0]), op.Set.gql())
+		return fmt.Sprintf("upsert_%s(filter: %s, create: %s, update: %s) { _docID }", name, s.guardFilter(op.Filter), gqlDoc(op.Docs[0]), op.Set.gql())
 	}
 	hx.Harnessf("no GraphQL form for op kind %q", op.Kind)
 	return ""
@@ -628,11 +721,11 @@ func (s *sim) execSimple1(op Op, txn client.Txn) string {
 			return errText(err)
 		case "updateFilter":
 			s.st.label("route:api")
-			_, err := col.UpdateWithFilter(ctx, op.Filter.gql(), op.Set.json())
+			_, err := col.UpdateWithFilter(ctx, s.guardFilter(op.Filter), op.Set.json())
 			return errText(err)
 		case "deleteFilter":
 			s.st.label("route:api")
-			_, err := col.DeleteWithFilter(ctx, op.Filter.gql())
+			_, err := col.DeleteWithFilter(ctx, s.guardFilter(op.Filter))
 			return errText(err)
 		}
 		// deleteIDs, upsert: GraphQL only
@@ -762,6 +855,7 @@ func (s *sim) execTxn(op Op) *hx.Failure {
 	if err != nil {
 		hx.Harnessf("NewTxn: %v", err)
 	}
+	s.openTxns++
 	failed := false
 	for _, step := range op.Sub {
 		if e := s.execSimple(step, txn); e != "" {
@@ -770,6 +864,7 @@ func (s *sim) execTxn(op Op) *hx.Failure {
 		}
 		if f := s.checkpoint("txn-open"); f != nil || s.cut {
 			txn.Discard(s.ctx)
+			s.openTxns--
 			return f
 		}
 		if failed {
@@ -783,7 +878,9 @@ func (s *sim) execTxn(op Op) *hx.Failure {
 		if failed {
 			s.st.label("txn-commit-after-failed-step")
 		}
-		if err := txn.Commit(s.ctx); err != nil {
+		err := txn.Commit(s.ctx)
+		s.openTxns--
+		if err != nil {
 			txn.Discard(s.ctx)
 			s.st.label("commit-failed")
 			return s.checkpoint("commit-failed")
@@ -792,6 +889,7 @@ func (s *sim) execTxn(op Op) *hx.Failure {
 		return s.checkpoint("txn-commit")
 	}
 	txn.Discard(s.ctx)
+	s.openTxns--
 	s.st.label("txn-discarded")
 	return s.checkpoint("txn-discard")
 }
@@ -813,12 +911,14 @@ func (s *sim) execPair(op Op) *hx.Failure {
 		}
 		sides[k] = &side{txn: txn}
 	}
+	s.openTxns = 2
 	sides[0].steps, sides[0].commit = op.Sub, op.Commit
 	sides[1].steps, sides[1].commit = op.Sub2, op.Commit2
 	discardAll := func() {
 		for _, sd := range sides {
 			sd.txn.Discard(s.ctx)
 		}
+		s.openTxns = 0
 	}
 	for i := 0; i < len(op.Sub) || i < len(op.Sub2); i++ {
 		for _, sd := range sides {
@@ -843,7 +943,9 @@ func (s *sim) execPair(op Op) *hx.Failure {
 		sd := sides[k]
 		var f *hx.Failure
 		if sd.commit && !sd.failed {
-			if err := sd.txn.Commit(s.ctx); err != nil {
+			err := sd.txn.Commit(s.ctx)
+			s.openTxns--
+			if err != nil {
 				sd.txn.Discard(s.ctx)
 				s.st.label("commit-failed")
 				if strings.Contains(strings.ToLower(err.Error()), "conflict") {
@@ -856,12 +958,14 @@ func (s *sim) execPair(op Op) *hx.Failure {
 			}
 		} else {
 			sd.txn.Discard(s.ctx)
+			s.openTxns--
 			s.st.label("txn-discarded")
 			f = s.checkpoint("txn-discard")
 		}
 		if f != nil || s.cut {
 			if n == 0 {
 				sides[order[1]].txn.Discard(s.ctx)
+				s.openTxns = 0
 			}
 			return f
 		}
@@ -893,7 +997,15 @@ func describe(evs []recEvent) string {
 func (s *sim) checkpoint(kind string) *hx.Failure {
 	// 1. synchronise: GraphQL sentinels first (they are update events, so the bus subscribers
 	//    see them too, after everything the call published), then the bus sentinel.
-	sentinels := s.publishGQLSentinels()
+	//    Before them, when no explicit transaction is open, one real write per subscription: an
+	//    update of its sentinel document, which satisfies its filter and therefore must be
+	//    reported - the synchronisation does not depend on how the subscription reads a commit.
+	doGQL := len(s.gql) > 0 && s.openTxns == 0
+	sentinels := map[int]string{}
+	if doGQL {
+		s.sentinelWrites()
+		sentinels = s.publishGQLSentinels()
+	}
 	s.syncBus()
 	cands := append(s.unattached, s.tr.scan(s.ctx)...)
 	reach := s.tr.attached(s.ctx)
@@ -910,13 +1022,17 @@ func (s *sim) checkpoint(kind string) *hx.Failure {
 
 	newByCid := map[string]*commit{}
 	distinctDocs := map[string]bool{}
+	perDoc := map[string]int{}
 	for _, c := range fresh {
 		newByCid[c.Cid] = c
 		if c.Col < 0 {
 			hx.Harnessf("commit %s of unknown schema version %q", c.Cid, c.Schema)
 		}
 		if c.Kind == "doc" {
-			distinctDocs[c.DocID] = true
+			if !s.sentinelDocs[c.DocID] {
+				distinctDocs[c.DocID] = true
+				perDoc[c.DocID]++
+			}
 			if _, known := s.docCol[c.DocID]; !known {
 				s.docCol[c.DocID] = c.Col
 			}
@@ -928,7 +1044,7 @@ func (s *sim) checkpoint(kind string) *hx.Failure {
 	// documents created in this interval join the target lists in a deterministic order
 	var newDocs []*commit
 	for _, c := range fresh {
-		if c.Kind == "doc" && len(c.Heads) == 0 {
+		if c.Kind == "doc" && len(c.Heads) == 0 && !s.sentinelDocs[c.DocID] {
 			newDocs = append(newDocs, c)
 		}
 	}
@@ -943,6 +1059,16 @@ func (s *sim) checkpoint(kind string) *hx.Failure {
 		} else {
 			s.st.label("multi-doc-call")
 			s.st.label("multi-doc-transaction")
+		}
+	}
+	for id, n := range perDoc {
+		if n >= 2 {
+			s.st.label("several-commits-of-one-document-in-one-interval")
+			for _, g := range s.gql {
+				if g.spec.Col == s.docCol[id] && g.spec.Filter != nil {
+					s.st.label("several-commits-of-one-document+filtered-gql")
+				}
+			}
 		}
 	}
 	s.st.counts["checkpoints"]++
@@ -987,9 +1113,27 @@ func (s *sim) checkpoint(kind string) *hx.Failure {
 	}
 	s.st.counts["events_checked"] += len(ref)
 
-	// 3. every GraphQL subscription
+	// 3. every GraphQL subscription (events of intervals inside open transactions are carried over)
+	if !doGQL {
+		s.gqlPending = append(s.gqlPending, ref...)
+		return nil
+	}
+	ref = append(s.gqlPending, ref...)
+	s.gqlPending = nil
 	for k, g := range s.gql {
-		items, stalled := s.waitSentinel(g, sentinels[g.spec.Col])
+		lastDoc := ""
+		if !g.disabled {
+			exp, _, _ := s.expected(g, ref)
+			for _, x := range exp {
+				if !x.optional {
+					lastDoc = x.docID
+				}
+			}
+			if lastDoc != "" && !s.sentinelDocs[lastDoc] {
+				hx.Harnessf("the last expected result of subscription %d is not a sentinel write", k)
+			}
+		}
+		items, stalled := s.waitSentinel(g, sentinels[g.spec.Col], lastDoc)
 		if stalled {
 			s.stalled = true
 			s.cut = true
@@ -1129,6 +1273,7 @@ func (s *sim) publishGQLSentinels() map[int]string {
 		}
 		out[col] = id.String()
 		s.synth[id.String()] = true
+		s.synthCol[id.String()] = col
 	}
 	cols := []int{}
 	for col := range out {
@@ -1154,17 +1299,41 @@ func (it gqlItem) mentions(cid string) bool {
 }
 
 // waitSentinel returns the results the subscription produced before the answer to the sentinel.
-func (s *sim) waitSentinel(g *gqlSub, sentinel string) (items []gqlItem, stalled bool) {
+//
+// Two independent markers end the interval in the result stream: the answer to the synthetic
+// event (an error result naming its cid) and the result for the last real write of the interval,
+// the update of a sentinel document (lastDoc) that satisfies this subscription's filter. Normally
+// the first follows the second immediately. If the real result is there but the synthetic event
+// stays unanswered for a grace period, the stream is cut after the real result (which is the same
+// position); whatever arrives later is judged in the next interval. A grace period that is too
+// short therefore changes nothing on a healthy tree.
+func (s *sim) waitSentinel(g *gqlSub, sentinel string, lastDoc string) (items []gqlItem, stalled bool) {
 	start := time.Now()
 	var lastStuck map[string]bool
+	var realSeen time.Time
 	nextProbe := 150 * time.Millisecond
 	for {
 		g.mu.Lock()
+		idxReal := -1
 		for i, it := range g.items {
 			if it.mentions(sentinel) {
 				items = append(items, g.items[:i]...)
 				g.items = append([]gqlItem{}, g.items[i+1:]...)
 				g.mu.Unlock()
+				return items, false
+			}
+			if idxReal < 0 && lastDoc != "" && len(it.errs) == 0 && len(it.rows) == 1 && it.rows[0].docID == lastDoc {
+				idxReal = i
+			}
+		}
+		if idxReal >= 0 {
+			if realSeen.IsZero() {
+				realSeen = time.Now()
+			} else if time.Since(realSeen) > sentinelGrace {
+				items = append(items, g.items[:idxReal+1]...)
+				g.items = append([]gqlItem{}, g.items[idxReal+1:]...)
+				g.mu.Unlock()
+				s.st.label("gql-synthetic-event-unanswered")
 				return items, false
 			}
 		}
@@ -1225,17 +1394,9 @@ func stuckSubscriptionGoroutines() map[string]bool {
 	return out
 }
 
-type expect struct {
-	docID    string
-	cid      string
-	optional bool
-}
-
-// checkGQL compares the results one subscription yielded in an interval with the events of the
-// interval (in the order the bus delivered them).
-func (s *sim) checkGQL(k int, g *gqlSub, items []gqlItem, evs []recEvent, sentinels map[int]string) *hx.Failure {
-	var exp []expect
-	colEvents, foreignDocs, total := 0, map[string]int{}, len(evs)+len(sentinels)
+// expected lists, in event order, the results a subscription owes for the events of an interval.
+func (s *sim) expected(g *gqlSub, evs []recEvent) (exp []expect, colEvents int, foreignDocs map[string]int) {
+	foreignDocs = map[string]int{}
 	for _, e := range evs {
 		c := s.tr.blocks[e.u.Cid.String()]
 		switch {
@@ -1253,6 +1414,20 @@ func (s *sim) checkGQL(k int, g *gqlSub, items []gqlItem, evs []recEvent, sentin
 			exp = append(exp, expect{c.DocID, c.Cid, false})
 		}
 	}
+	return exp, colEvents, foreignDocs
+}
+
+type expect struct {
+	docID    string
+	cid      string
+	optional bool
+}
+
+// checkGQL compares the results one subscription yielded in an interval with the events of the
+// interval (in the order the bus delivered them).
+func (s *sim) checkGQL(k int, g *gqlSub, items []gqlItem, evs []recEvent, sentinels map[int]string) *hx.Failure {
+	exp, colEvents, foreignDocs := s.expected(g, evs)
+	total := len(evs) + len(sentinels)
 	describeItems := func() string {
 		parts := []string{}
 		for _, it := range items {
@@ -1266,19 +1441,25 @@ func (s *sim) checkGQL(k int, g *gqlSub, items []gqlItem, evs []recEvent, sentin
 	}
 
 	var real []gqlRow
-	nEmpty, nColErr, nForeign, nForeignSentinel := 0, 0, 0, 0
+	nEmpty, nColErr, nForeign, nForeignSentinel, nStale := 0, 0, 0, 0, 0
 	for _, it := range items {
 		switch {
 		case len(it.errs) > 0:
 			// the answer to a sentinel published for the other collection (now or at an earlier
 			// checkpoint): only seen while events are not matched against the subscribed collection
-			foreign := false
+			foreign, stale := false, false
 			for id := range s.synth {
 				if it.mentions(id) {
-					foreign = true
+					if s.synthCol[id] == g.spec.Col {
+						stale = true // the late answer to a synthetic event of an earlier interval
+					} else {
+						foreign = true
+					}
 				}
 			}
 			switch {
+			case stale:
+				nStale++
 			case foreign:
 				nForeignSentinel++
 			case len(it.errs) == 1 && strings.Contains(it.errs[0], "cid does not belong to document"):
@@ -1350,8 +1531,8 @@ func (s *sim) checkGQL(k int, g *gqlSub, items []gqlItem, evs []recEvent, sentin
 	}
 
 	// results that carry no document of this collection must be explained by a listed finding
-	if len(items) > total {
-		return hx.Failf("C20/gql/more-results-than-events", "%d results for %d events: %s", len(items), total, describeItems())
+	if len(items)-nStale > total {
+		return hx.Failf("C20/gql/more-results-than-events", "%d results for %d events: %s", len(items)-nStale, total, describeItems())
 	}
 	if nColErr > 0 {
 		if nColErr > colEvents {
